@@ -733,6 +733,9 @@ class TJPTransformer(Transformer[Any, Any]):
         if items and isinstance(items[0], dict):
             # It's a workinghours_spec dict - wrap it as a tuple
             return ("workinghours", items[0])
+        if items and isinstance(items[0], str) and len(items) > 1:
+            # leaves <type> <date> [- <date>], as on a resource
+            return self.resource_leaves(items)
         return items[0] if items else None
 
     # Reports
